@@ -53,12 +53,28 @@ def diff_stmts(got, want):
 
 
 def check_db(job):
-    """job = (ops, db_slot, model_sql_hex or None). returns dict with findings"""
-    ops, dbslot, model_sql = job
+    """job = (ops, db_slot, model_sql_hex or None[, variant]). returns dict with findings.
+    variant 'deepcopy' / 'pickle': the oracle is applied to a copy of the database taken after the script ran, the
+    original dropped and collected (a copy of a database is a database with the same content)."""
+    ops, dbslot, model_sql = job[:3]
+    variant = job[3] if len(job) > 3 else None
     it = build(ops)
     db = it.slots[dbslot]
+    if variant:
+        import copy, gc, pickle
+        try:
+            dbc = copy.deepcopy(db) if variant == 'deepcopy' else pickle.loads(pickle.dumps(db))
+        except RecursionError:
+            dbc = None
+        except Exception as e:   # noqa
+            return {'diffs': [], 'd2': False, 'order_violation': None, 'order_equals_model': None,
+                    'read_error': '%s of the database raised %r' % (variant, e), 'perm_ok': True, 'nstmts': 0, 'has_inline': False}
+        if dbc is not None:
+            del it, db
+            gc.collect()
+            db = dbc
     res = {'diffs': [], 'd2': False, 'order_violation': None, 'order_equals_model': None, 'read_error': None,
-           'perm_ok': True, 'nstmts': 0, 'has_inline': False}
+           'perm_ok': True, 'nstmts': 0, 'has_inline': False, 'text_violation': None, 'text_equals_model': None}
     try:
         sql = db.sql
     except Exception as e:   # noqa
@@ -100,12 +116,12 @@ def check_db(job):
     for ref in db.refs:
         if ref.inline and ref.type in ('>', '<', '-'):
             holder, _, target, _ = sqlread.fk_of(ref)
-            if holder is not target:
+            if holder is not target and holder is not None and target is not None:
                 edges.append((holder, target))
     res['has_inline'] = bool(edges)
     if edges and res['perm_ok'] and acyclic(edges):
         pos = {id(t): i for i, t in enumerate(order)}
-        bad = [(h.name, t.name) for h, t in edges if pos[id(t)] > pos[id(h)]]
+        bad = [(h.name, t.name) for h, t in edges if id(t) in pos and id(h) in pos and pos[id(t)] > pos[id(h)]]
         if bad:
             res['order_violation'] = bad
             if model_sql is not None:
@@ -114,7 +130,50 @@ def check_db(job):
                     res['order_equals_model'] = (mnames == declared)
                 except Exception:   # noqa
                     res['order_equals_model'] = False
+    # the same clause read off the emitted text: which CREATE TABLE actually carries a FOREIGN KEY clause, and where the
+    # table it names is created (independent of which side the objects say holds the key)
+    bad_t = text_order_violations(got, ntab)
+    if bad_t:
+        res['text_violation'] = bad_t
+        res['text_equals_model'] = False
+        if model_sql is not None:
+            try:
+                res['text_equals_model'] = (text_order_violations(sqlread.read_ddl(unhexs(model_sql)), ntab) == bad_t)
+            except Exception:   # noqa
+                pass
     return res
+
+
+def text_order_violations(stmts, ntab):
+    tabs = [s for s in stmts if s['stmt'] == 'table'][:ntab]
+    pos = {}
+    for i, s in enumerate(tabs):
+        pos.setdefault(s['name'], i)
+    edges = []
+    for i, s in enumerate(tabs):
+        for fk in s.get('fks') or []:
+            if fk['ref_table'] != s['name']:
+                edges.append((i, fk['ref_table']))
+    # only acyclic graphs can be ordered
+    g = {}
+    for i, tn in edges:
+        if tn in pos:
+            g.setdefault(i, set()).add(pos[tn])
+    state = {}
+
+    def dfs(u):
+        state[u] = 1
+        for w in g.get(u, ()):
+            if state.get(w) == 1:
+                return False
+            if w not in state and not dfs(w):
+                return False
+        state[u] = 2
+        return True
+    for u in list(g):
+        if u not in state and not dfs(u):
+            return []
+    return sorted((tabs[i]['name'], tn) for i, tn in edges if tn in pos and pos[tn] > i)
 
 
 def acyclic(edges):
